@@ -1,0 +1,40 @@
+//go:build verif
+
+// Contracts for the deductive verifier in /verif (kpv). Comments only.
+
+package cmd
+
+//@ func cmd.findEnv
+//@ assigns nothing
+//@ ensures[C20] prefixed_variable_first: envSet("KAMAL_PROXY_" + key) ==> result0 == envVal("KAMAL_PROXY_" + key) && result1
+//@ ensures[C20] then_bare_variable: !envSet("KAMAL_PROXY_" + key) && envSet(key) ==> result0 == envVal(key) && result1
+//@ ensures[C20] else_unset: !envSet("KAMAL_PROXY_" + key) && !envSet(key) ==> result0 == "" && !result1
+
+//@ func cmd.getEnvInt
+//@ assigns nothing
+//@ ensures[C20] value_of_the_chosen_variable: chosenSet(key) && atoiOK(chosenVal(key)) ==> result == atoiVal(chosenVal(key))
+//@ ensures[C20] malformed_or_unset_gives_default: !(chosenSet(key) && atoiOK(chosenVal(key))) ==> result == defaultValue
+
+//@ func cmd.getEnvBool
+//@ assigns nothing
+//@ ensures[C20] value_of_the_chosen_variable: chosenSet(key) && parseBoolOK(chosenVal(key)) ==> result == parseBoolVal(chosenVal(key))
+//@ ensures[C20] malformed_or_unset_gives_default: !(chosenSet(key) && parseBoolOK(chosenVal(key))) ==> result == defaultValue
+
+//@ func cmd.withRPCClient
+//@ attr blocks
+//@ assigns *
+//@ may_emit *
+//@ ensures[C20] dial_error_is_returned: none(RpcClose) ==> result != nil
+//@ ensures[C20] connection_closed: count(RpcDial(_, _)) == 1 && all(RpcDial, $0 == "unix" && $1 == socketPath) && count(RpcClose(_)) <= 1
+
+//@ func (*cmd.deployCommand).preRun
+//@ requires cmd != nil
+//@ assigns c.args.ServiceOptions.Hosts, c.args.ServiceOptions.PathPrefixes, c.args.TargetOptions.ForwardHeaders
+//@ ensures[C20] nothing_sent_before_validation: none(RpcDial) && none(RpcCall)
+//@ ensures[C20] request_limit_needs_request_buffering: flagChanged(flagsOf(ref(cmd)), "max-request-body") && !flagChanged(flagsOf(ref(cmd)), "buffer-requests") ==> err != nil
+//@ ensures[C20] response_limit_needs_response_buffering: flagChanged(flagsOf(ref(cmd)), "max-response-body") && !flagChanged(flagsOf(ref(cmd)), "buffer-responses") ==> err != nil
+//@ ensures[C20] tls_needs_a_host: old(c.args.ServiceOptions.TLSEnabled) && len(old(c.args.ServiceOptions.Hosts)) == 0 ==> err != nil
+//@ ensures[C20] tls_needs_the_root_path: old(c.args.ServiceOptions.TLSEnabled) && len(old(c.args.ServiceOptions.PathPrefixes)) > 0 && !(exists i int :: 0 <= i && i < len(c.args.ServiceOptions.PathPrefixes) && c.args.ServiceOptions.PathPrefixes[i] == "/") ==> err != nil
+//@ ensures[C20] forward_headers_default: err == nil && !flagChanged(flagsOf(ref(cmd)), "forward-headers") ==> c.args.TargetOptions.ForwardHeaders == !c.args.ServiceOptions.TLSEnabled
+//@ ensures[C20] explicit_forward_headers_kept: flagChanged(flagsOf(ref(cmd)), "forward-headers") ==> c.args.TargetOptions.ForwardHeaders == old(c.args.TargetOptions.ForwardHeaders)
+//@ ensures[C20] accepted_otherwise: !(flagChanged(flagsOf(ref(cmd)), "max-request-body") && !flagChanged(flagsOf(ref(cmd)), "buffer-requests")) && !(flagChanged(flagsOf(ref(cmd)), "max-response-body") && !flagChanged(flagsOf(ref(cmd)), "buffer-responses")) && !old(c.args.ServiceOptions.TLSEnabled) ==> err == nil
